@@ -68,6 +68,28 @@ def materialise(m):
     return files, pos
 
 
+def chains_to(m, pos, target):
+    """every chain of INCLUDE lines (innermost first) through which `target` is reached when the project is read in
+    order, as the library would print it"""
+    content = m["content"]
+    res = []
+
+    def visit(f, chain, depth):
+        if f == target:
+            res.append(chain)
+        if depth > 5 or f not in content:
+            return
+        for i, it in enumerate(content[f], 1):
+            if it["t"] != "inc" or it["w"] == "../main.jst":
+                continue
+            w = it["w"].replace("//", "/")
+            p = w if "/" not in f else f.rsplit("/", 1)[0] + "/" + w
+            if p in content:
+                visit(p, [[f, str(pos[f][i][1])]] + chain, depth + 1)
+    visit("main.jst", [], 0)
+    return res
+
+
 def new_stats():
     return {"agree": {"ops": 0, "kind": 0, "place": 0, "trace": 0}, "rejected": 0, "accepted": 0, "kinds": {}}
 
@@ -143,11 +165,13 @@ def judge(chk, gate, m, files, pos, o, case, stats):
         elif got_trace != want_trace:
             # the same file included from two places: is the reported line an EARLIER include of that file?
             detail = "other"
-            for (gf, gl), (wf, wl) in zip(got_trace, want_trace):
-                if (gf, gl) != (wf, wl):
-                    if gf == wf and int(gl) < int(wl):
-                        detail = "line-of-an-earlier-include"
-                    break
+            # finding F-07: the tracer is cached per including file P, so a directive read while P is suspended gets the chain
+            # that was current when the FIRST such directive was read: some INCLUDE line of P, then some chain that leads to P
+            if got_trace and want_trace and got_trace[0][0] == want_trace[0][0]:
+                P = got_trace[0][0]
+                inc_lines = {str(pos[P][i][1]) for i, it in enumerate(m["content"].get(P, []), 1) if it["t"] == "inc"}
+                if got_trace[0][1] in inc_lines and got_trace[1:] in chains_to(m, pos, P):
+                    detail = "line-of-an-earlier-include"
             bad("trace", "include trace %s, the chain of INCLUDE lines is %s" % (got_trace, want_trace),
                 {"what": "trace", "detail": detail, "kind": rk})
 
